@@ -277,6 +277,11 @@ def query_traversal(node, callback, is_table=False, is_target=False, parent_quer
                 node.field = node_out
 
     elif isinstance(node, ast.Case):
+        if node.arg is not None:
+            arg = query_traversal(node.arg, callback, parent_query=parent_query)
+            if arg is not None:
+                node.arg = arg
+
         rules = []
         for condition, result in node.rules:
             condition2 = query_traversal(condition, callback, parent_query=parent_query)
